@@ -356,6 +356,11 @@ impl AvpHeader {
         writer.write_all(&[flags])?;
 
         // Length
+        if self.length > 0x00ff_ffff {
+            return Err(Error::EncodeError(
+                "avp length does not fit into 24 bits".into(),
+            ));
+        }
         let length_bytes = &self.length.to_be_bytes()[1..4];
         writer.write_all(length_bytes)?;
 
